@@ -58,6 +58,10 @@ CLAIMED = {
    text="Unit layer of the document calculation, bounded model checking with z3: from an arbitrary symbolic pre-state each step of the real code - calculateLine (price x quantity, percentage discount, percentage / rate-times-quantity charge), calculateDiscounts/Charges and their sums (with and without explicit base), advances, advance total and percentage due dates, foreign-currency item price conversion (exchange rate or alternative price) - yields exactly the half-away-from-zero rounding of the exact product / percentage at the documented working precision (>= currency+2 under 'precise', currency under 'currency'), fixed amounts are only raised, never rounded, before use, and line totals are sum - discounts + charges. The accounting identities of the whole pipeline are decided under the currency rule in C03, the fixpoint in C04.",
    note="Assumes go/ssa faithful, z3 sound, C05 summaries (lemmas re-run first). Outside: comparison of the whole pipeline with a reference under 'precise' and the 'less than a full minor unit' bound; sub-line breakdowns; regime-default rule selection. Known finding (open): double rounding under the currency rule when the price has more decimals than the currency and the quantity has decimals.",
    ref="DESIGN.md 5 (C01)"),
+ "C15": dict(
+   text="Only the sufficient condition the property's own mechanism names - shared definitions are never written after initialisation - is decided: the merge helpers (TagSet.Merge, CorrectionDefinition.Merge, Extensions.Merge, ScenarioSet.Merge) are executed symbolically on frozen operands over every combination of list length, spare capacity, duplicates and flags (any store into an operand, including its slices' spare capacity, is an event; aliasing is asserted through two merges from one receiver), and Invoice.supportedTags / correctionDef / scenarioSummary are run on the real regime and addon definitions of four regimes with those definitions frozen. Counterexamples are confirmed natively by comparing deep dumps of the operands.",
+   note="Interleavings, the race detector, result equivalence under contention and bulk request/response pairing are outside: goroutines and channels are not encoded and a solver adds nothing to schedule enumeration. Defects found and fixed: a6924ab, 334da12.",
+   ref="DESIGN.md 5 (C15)"),
 }
 
 NA = {
